@@ -191,7 +191,39 @@ def body_factory(wrapper, step, trained0, hook, depth, col):
     return body
 
 
+def check_two_wrappers(w1, step1, w2, step2, depth):
+    """Two independent surrogate wrappers (two problems) receive requests alternately; each must behave as if alone."""
+    from artap.individual import Individual
+    out = []
+    objs = []
+    for w, st in ((w1, step1), (w2, step2)):
+        problem, s, stub, state = make(w, st, False, False)
+        objs.append((problem, s, stub, st, w, [0, 0, []]))      # evals, fits, data
+    for k in range(depth):
+        for problem, s, stub, st, w, ref in objs:
+            x = [0.125 * ((k % 4) + 1) + (0.01 if w == w2 and st == step2 else 0.0)]
+            problem.surrogate.evaluate(Individual(list(x)))
+            ref[0] += 1
+            ref[2].append(x[0])
+            if st != -1 and ref[0] % st == 0:
+                ref[1] += 1
+            if (s.eval_counter, s.predict_counter) != (ref[0], 0) or [v[0] for v in s.x_data] != ref[2] or len(stub.fits) != ref[1]:
+                out.append(("C19:two-wrappers:objects-influence-each-other",
+                            "wrappers %s(step %r) and %s(step %r) used alternately: after %d requests the %s(step %r) wrapper has counters %r, %d training points, %d fits; alone it would have %r, %d, %d" % (
+                                w1, step1, w2, step2, k + 1, w, st, (s.eval_counter, s.predict_counter), len(s.x_data), len(stub.fits), (ref[0], 0), len(ref[2]), ref[1])))
+                return out
+    return out
+
+
 def _shard(shard, col: Collector):
+    if shard[0] == "two":
+        for (w1, s1, w2, s2) in (("scikit", 2, "scikit", 3), ("scikit", 1, "smt", -1), ("smt", 2, "scikit", 2), ("smt", 3, "smt", 1)):
+            col.case()
+            col.nontrivial(("two", w1, s1, w2, s2))
+            for key, msg in check_two_wrappers(w1, s1, w2, s2, shard[1]):
+                col.violation(key, "two", msg, {"w1": w1, "s1": s1, "w2": w2, "s2": s2, "depth": shard[1]})
+        col.sample({"kind": "two wrappers served alternately", "depth": shard[1]}, 1)
+        return
     wrapper, step, trained0, hook, depth = shard
     body = body_factory(wrapper, step, trained0, hook, depth, col)
     explore(body, col, bound=None, sub="requests",
@@ -201,6 +233,8 @@ def _shard(shard, col: Collector):
 
 
 def replay(sub, case):
+    if sub == "two":
+        return check_two_wrappers(case["w1"], case["s1"], case["w2"], case["s2"], case["depth"])
     col = Collector()
     step = case["step"]
     if isinstance(step, list):
@@ -225,6 +259,11 @@ def run(tier, seed):
         for sched in (("switch", 3, -1, 2), ("switch", 5, -1, 4), ("switch", 4, 3, 2), ("switch", 2, 2, 3), ("switch", 3, 2, -1)):
             for hook in (False, True):
                 shards.append((wrapper, sched, False, hook, depth))
+    shards.append(("two", 12))
+    for wrapper in ("scikit", "smt"):          # long request sequences (no hook: one execution each)
+        for step in (1, 2, 3, 4, 5, 7, 10, -1):
+            shards.append((wrapper, step, False, False, 40))
+            shards.append((wrapper, step, True, False, 40))
     col = run_shards(_shard, shards)
     states = len(col.sets.get("states", ()))
     trans = len(col.sets.get("transitions", ()))
